@@ -2,6 +2,10 @@
 """Regenerates /verif/MANIFEST.json from the table below (run after adding a check)."""
 import json, subprocess
 CHECKS = {
+ "C07": dict(level="model_checking",
+   text="History exploration of the real broker (engine, client goroutines, MemoryBackend, tomb) under a controlled scheduler: every sequence up to depth 7-8 (thorough 8-9) of publisher and fault events {connect, PUBLISH new/dup, PUBREL known/unknown, drop, broker write failing before/after, broker read failing, backend ack released late / from another thread} for 1-2 packet ids, the broker running to exact quiescence between events; extra pass with one or two scheduling deviations inside every step. Oracles at the instant of each broker write and at each quiescence.",
+   note="Trusted: rewriter + scheduler shims, codec pipe (real Encode/Decode, FIN semantics), recording backend wrapper. Publisher model is protocol-conformant. Timers >= 100 ms (token/kill timeouts) never fire by themselves.",
+   technique="bounded-exhaustive environment-history exploration of the implementation (crash/fault points as events) under a controlled scheduler", design="5 (C07)"),
  "C04": dict(level="exploration",
    text="Complete sweep of a finite catalogue: every (filter, name) pair over levels {a,b,empty,+} / '#' up to depth 4 in both directions (Match over stored filters, Search over stored names), every two-entry tree (distinct and equal values) over depth-3 entries, three-entry trees (thorough), plus a structured long/multi-byte family, each compared with an independent 15-line reference matcher. Exhaustive enumeration of inputs; there is no state space, hence 'exploration' with exhaustive:true.",
    note="Trusted: ref.Matches (written from MQTT 3.1.1 section 4.7). Longer random inputs of the quantifier are replaced by the stated finite universes.",
